@@ -2066,7 +2066,13 @@ class BaseInterpreter(Generic[TContext, TEvent]):
                     return [resolved]
             if parent.initial and parent.initial in parent.states:
                 return [parent.states[parent.initial]]
-            return []
+            # 🌐 A parallel parent has no `initial`: its normal entry is every
+            #    region. Returning nothing here entered nothing at all.
+            return [
+                child
+                for child in parent.states.values()
+                if child.type != "history"
+            ]
 
         if history_node.history == "deep":
             # 🌊 Deep history restores the full nested configuration; entering
@@ -2637,7 +2643,12 @@ class BaseInterpreter(Generic[TContext, TEvent]):
             branch: Optional[StateNode] = target_state
             while branch is not None and branch.parent is not domain:
                 branch = branch.parent
-            if branch is not None:
+            # 🕰️ A history child is not a region: targeting it restores EVERY
+            #    region of the parallel state, so every region must be exited
+            #    first. Scoping to the (empty) subtree of the history node
+            #    exited nothing and then entered the remembered states on top
+            #    of the active ones - two active children in one region.
+            if branch is not None and branch.type != "history":
                 candidates = {
                     s
                     for s in candidates
